@@ -278,6 +278,18 @@ class KObj(Kind):
         return ip.new_object(self.cls, hint)
 
 
+class KKindSpecFun(Kind):
+    '''A function-valued field/parameter that denotes the named specification function
+    (e.g. Merkle.hash_func = H, uninterpreted).'''
+
+    def __init__(self, fname):
+        self.fname = fname
+        self.name = 'SpecFun_' + fname
+
+    def fresh(self, ip, hint='f'):
+        return VFunc('spec', self.fname)
+
+
 class KConst(Kind):
     '''A parameter that always has the given concrete Python value.'''
 
